@@ -25,8 +25,9 @@ const c05Block = 64 // configurations per case index
 const c05Kinds = 5
 const behExit0 = 4
 
-func c05IsExit(b int) bool  { return b == drive.BehExit || b == behExit0 }
-func c05Raises(b int) bool  { return b == drive.BehPanic || c05IsExit(b) }
+func c05IsExit(b int) bool { return b == drive.BehExit || b == behExit0 }
+func c05Raises(b int) bool { return b == drive.BehPanic || c05IsExit(b) }
+
 // exit statuses: small distinct ones, and per hook position also values beyond a byte, negative and large ones (the
 // status handed to the exit function must be the one given to Exit, whatever the operating system makes of it)
 func c05Code(b, i int) int {
@@ -206,12 +207,15 @@ func (k c05Cfg) tree() *drive.Cmd {
 		n := &drive.Cmd{ID: i, Aliases: []string{fmt.Sprintf("c%d", i), fmt.Sprintf("c%d_alias", i), fmt.Sprintf("k%d", i)}, Prog: &Prog{}, Parent: cur}
 		n.Before = c05Beh(k.beh[i], i)
 		n.Before.PanKind = (k.digest() + i) % 4
+		n.Before.Deferred = (k.digest()+i)%5 == 2
 		hi := k.d + 1 + (k.d - i) + 1
 		n.After = c05Beh(k.beh[hi], hi)
 		n.After.PanKind = (k.digest() + hi) % 4
+		n.After.Deferred = (k.digest()+hi)%5 == 2
 		if i == k.d {
 			n.Action = c05Beh(k.beh[k.d+1], k.d+1)
 			n.Action.PanKind = (k.digest() + k.d + 1) % 4
+			n.Action.Deferred = (k.digest()+k.d+1)%5 == 2
 		} else {
 			n.Action = drive.Beh{Kind: drive.BehReturn} // never addressed
 		}
